@@ -75,6 +75,39 @@ impl Property for C15 {
             }
         }
         st.exhaustive_parts.push("16-bit offset types (u16, le::U16, be::U16): first item with a sealing offset of 65512..65612 followed by a second item, buffers around and above the reference size".into());
+        // iterators that never end (size_hint lower bound usize::MAX): no buffer holds their content, every
+        // length must be refused with InsufficientSize and nothing may overflow on the way
+        if shard == 0 {
+            use flatty::{flat_vec, flex, prelude::*, vec, FlatVec, FlexVec};
+            for len in 0usize..=72 {
+                let mut buf = Guarded::new_aligned(len, 8, 0, len % 2 == 0);
+                macro_rules! endless {
+                    ($ty:ty, $empl:expr, $what:expr) => {{
+                        buf.slice().fill(0xEE);
+                        st.eval(1);
+                        match lib(|| <$ty>::new_in_place(buf.slice(), $empl).map(|_| ()).map_err(|e| format!("{:?}", e.kind))) {
+                            Err(p) => vfail!("panic", "{} into {} bytes panicked: {}", $what, len, p),
+                            Ok(Ok(())) => vfail!("accepts-too-small", "{} into {} bytes: accepted", $what, len),
+                            Ok(Err(k)) if k != "InsufficientSize" => vfail!("wrong-error", "{} into {} bytes: refused with {}", $what, len, k),
+                            Ok(Err(_)) => {}
+                        }
+                        if let Err(m) = buf.check() {
+                            vfail!("canary", "{} into {} bytes: {}", $what, len, m);
+                        }
+                        st.nontrivial(($what, len), || json!({"emplacer": $what, "len": len}));
+                    }};
+                }
+                endless!(FlatVec<u8, u16>, vec::FromIterator(0u8..), "FlatVec<u8, u16> from vec::FromIterator(0u8..)");
+                endless!(FlatVec<u32, u8>, vec::FromIterator(std::iter::repeat(7u32)), "FlatVec<u32, u8> from vec::FromIterator(repeat(7))");
+                endless!(
+                    FlexVec<FlatVec<u8, u8>, u16>,
+                    flex::FromIterator::new(std::iter::repeat_with(|| flat_vec![1u8, 2])),
+                    "FlexVec<FlatVec<u8, u8>, u16> from flex::FromIterator::new(repeat_with(..))"
+                );
+                endless!(FlexVec<u32, u8>, flex::FromIterator::new(std::iter::repeat(9u32)), "FlexVec<u32, u8> from flex::FromIterator::new(repeat(9))");
+            }
+            st.exhaustive_parts.push("endless iterators into every buffer length 0..=72".into());
+        }
         Ok(())
     }
     fn run_case(&self, reg: &Registry, shape: usize, tape: &[u8], st: &mut Stats) -> CaseResult {
